@@ -127,11 +127,11 @@ type Scenario struct {
 	// RealBoot: the proxy is started by the REAL serve() / engine.start() with seed pools for Seeds (redis.servers) and,
 	// with Preconnect, connections opened before the loop runs; no topology is injected - the first one arrives through the
 	// real probe path, so the scenario needs RefreshLoop and at least one 1 s TICK before traffic
-	RealBoot   bool
+	RealBoot bool
 	// RealRun (with RealBoot): the proxy is started through the REAL core.Run with exactly the configured values (MaxLen,
 	// ServerConns as written, 0 = not configured), so Run's option defaulting is part of the execution; the buffer sizes are
 	// the production ones (Run sets them)
-	RealRun bool
+	RealRun    bool
 	Seeds      []string
 	Preconnect bool
 	NoVariant  bool // never run this scenario as a configuration variant (multi-megabyte inputs: debug lines walk every byte)
@@ -1448,8 +1448,13 @@ func (p *probePeer) answer(args [][]byte) []byte {
 		if info.Loading {
 			loading = "1"
 		}
+		// Redis 7 and later report async_loading right after loading (a line that CONTAINS "loading:" without starting with it)
+		async := ""
+		if info.Version >= "7" {
+			async = "async_loading:0\r\n"
+		}
 		role := "master"
-		text := "# Server\r\nredis_version:" + info.Version + "\r\nredis_mode:cluster\r\nos:Linux\r\n\r\n# Persistence\r\nloading:" + loading + "\r\nrdb_changes_since_last_save:0\r\n\r\n# Replication\r\n"
+		text := "# Server\r\nredis_version:" + info.Version + "\r\nredis_mode:cluster\r\nos:Linux\r\n\r\n# Persistence\r\nloading:" + loading + "\r\n" + async + "rdb_changes_since_last_save:0\r\n\r\n# Replication\r\n"
 		if n := p.w.Sc.node(p.addr); n != nil && n.Master != "" {
 			role = "slave"
 		}
